@@ -56,44 +56,15 @@ func MD5Sum(data []byte) [16]byte {
 
 // ---- HKDF ----
 
-type hkdfReader struct {
-	id                 string
-	secret, salt, info []byte
-	stream             []byte
-	off                int
-}
-
-func (r *hkdfReader) Read(p []byte) (int, error) {
-	// output is modelled in 32-byte blocks, each an independent collision-free function of
-	// (secret, salt, info), so that equal 32-byte keys imply equal inputs
-	for r.off+len(p) > len(r.stream) {
-		if len(r.stream) >= 64 {
-			panic("models: HKDF output beyond 64 bytes is not modelled")
-		}
-		blk := "0"
-		if len(r.stream) == 32 {
-			blk = "1"
-		}
-		r.stream = append(r.stream, verif.UF("HKDF:"+r.id+":"+blk, 32, r.secret, r.salt, r.info)...)
-	}
-	n := copy(p, r.stream[r.off:])
-	r.off += n
-	return n, nil
-}
-
+// HKDFNew is Expand(Extract(secret, salt), info), as golang.org/x/crypto/hkdf defines it, so
+// that a key derived in one step and the same key derived in two steps are the same term.
 func HKDFNew(h func() hash.Hash, secret, salt, info []byte) io.Reader {
-	id := "unknown-hash"
-	if mh, ok := h().(*ModelHash); ok {
-		id = mh.ID
-	}
-	return &hkdfReader{id: id, secret: append([]byte{}, secret...), salt: append([]byte{}, salt...), info: append([]byte{}, info...)}
+	return HKDFExpand(h, HKDFExtract(h, secret, salt), info)
 }
 
-// HKDFExtract / HKDFExpand: the two-step form of the same construction. Both steps are
-// collision-free uninterpreted functions in 32-byte blocks (equal blocks imply equal
-// inputs), so Expand(Extract(secret, salt), info) determines (secret, salt, info) just as
-// HKDFNew does. A key derived through New and the same key derived through Extract+Expand
-// are different terms in the model (a tree is expected to use one form for one key).
+// HKDFExtract / HKDFExpand: both steps are collision-free uninterpreted functions in
+// 32-byte blocks (equal blocks imply equal inputs), so Expand(Extract(secret, salt), info)
+// determines (secret, salt, info).
 func HKDFExtract(h func() hash.Hash, secret, salt []byte) []byte {
 	id, size := "unknown-hash", 64
 	if mh, ok := h().(*ModelHash); ok {
